@@ -142,6 +142,10 @@ def gen_cmdseq(rng) -> Dict[str, list]:
         cmds = []
         for _ in range(rng.choice((0, 1, 2, 3, 6))):
             exe: Any = rng.choice(list(SpecialCommand)) if rng.random() < 0.3 else ascii_field(rng, 260)
+            if rng.random() < 0.06:
+                # a program whose name happens to be the label Hammer shows for a built-in command: still a program
+                from srctools.cmdseq import SPECIAL_NAMES
+                exe = rng.choice(list(SPECIAL_NAMES.values()))
             cmds.append(Command(
                 exe, ascii_field(rng, 260),
                 enabled=rng.random() < 0.7,
